@@ -589,7 +589,11 @@ func (r *sessRunner) checkReplyOwner(sender uint64, secret []byte, vvec [][]byte
 			r.monFail = append(r.monFail, fmt.Sprintf("contribution reply to %d carries the share dealt to participant %d", sender, id))
 		}
 	}
-	// the reply's vector is the instance's own vector as held before the event
+	// the reply's vector is the instance's own vector as held before the event (a contribution under the
+	// instance's OWN identifier replaces that entry first - observation O8 - and is not judged here)
+	if sender == r.n.ID {
+		return
+	}
 	if len(vvec) != len(preS.OwnVVec) {
 		r.monFail = append(r.monFail, fmt.Sprintf("contribution reply to %d carries %d vector entries, the instance holds %d", sender, len(vvec), len(preS.OwnVVec)))
 		return
